@@ -222,6 +222,24 @@ def run(rep, tier):
             seg_[m_:ny_ - m_, m_:nx_ // 2] = 1
             seg_[m_:ny_ - m_, nx_ // 2:nx_ - m_] = 2
             segm = SegmentationImage(seg_)
+        if k % 8 == 7:
+            # two diagonal blends side by side: they do not touch, but the bounding box of each contains pixels of the other (what is written
+            # for one parent must never touch the pixels of another - seed C06-r5 rewrote the whole cut-out of the later parent)
+            ny_, nx_ = 26, 30
+            yy_, xx_ = np.mgrid[0:ny_, 0:nx_]
+            img = np.zeros((ny_, nx_))
+            ox_, oy_ = r.uniform(-0.4, 0.4), r.uniform(-0.4, 0.4)
+            flip_ = (k // 8) % 2
+            for (cx_, cy_) in [(7, 9), (11, 13), (16, 6), (20, 10)]:
+                cx_ = nx_ - 1 - cx_ if flip_ else cx_
+                img += r.uniform(60, 100) * np.exp(-0.5 * (((xx_ - cx_ - ox_) / 1.3) ** 2 + ((yy_ - cy_ - oy_) / 1.3) ** 2))
+            img = np.round(img * 16) / 16
+            with warnings.catch_warnings():
+                warnings.simplefilter('ignore')
+                segm = detect_sources(img, 6.0, npixels=5, connectivity=conn)
+            if segm is None:
+                continue
+            rep.count('overlapping-bbox scenes with %d parents' % segm.nlabels)
         disjoint_parent = False
         if k % 8 == 6 and segm.nlabels >= 2:
             # a parent made of two disjoint pieces (two detections given one label): either every piece is divided among the children or the
